@@ -304,13 +304,13 @@ func (s *scen) Hash() []byte {
 }
 
 func init() {
-	bfs.Register("c23/quick", func() bfs.Scenario { return build([]int64{50, 100, 200}) })
-	bfs.Register("c23/thorough", func() bfs.Scenario { return build([]int64{0, 50, 100, 200}) })
+	bfs.Register("c23/quick", func() bfs.Scenario { return build([]int64{50, 100, 200, 20000000000000000}) })
+	bfs.Register("c23/thorough", func() bfs.Scenario { return build([]int64{0, 50, 100, 200, 20000000000000000, 9000000000000000000}) })
 	reg.Register(reg.Check{Property: "C23", Level: "model_checking", Run: func(run *ev.Run) {
 		tier := ev.Tier()
-		depth, deadline, amounts := 4, 100*time.Second, "{50,100,200}"
+		depth, deadline, amounts := 4, 150*time.Second, "{50,100,200,2*10^16}"
 		if tier == "thorough" {
-			depth, deadline, amounts = 5, 15*time.Minute, "{0 (unbond all),50,100,200}"
+			depth, deadline, amounts = 5, 15*time.Minute, "{0 (unbond all),50,100,200,2*10^16,9*10^18}"
 		}
 		cfg := bfs.Config{Scenario: "c23/" + tier, MaxDepth: depth, Deadline: deadline}
 		st := bfs.Explore(cfg, run)
